@@ -207,8 +207,10 @@ def forbidden_scan():
     return hits
 
 
-def ensure_built():
-    """make the library (incremental, under a lock so that parallel checks do not race)"""
+def ensure_built(pid=None):
+    """make the part of the library a check needs (all Model files + Props/<pid>.vo and what it depends on), incrementally
+    and under a lock so that parallel checks do not race.  Other properties' files are not built: a broken proof elsewhere
+    must not break this check."""
     os.makedirs(BUILD, exist_ok=True)
     with open(os.path.join(BUILD, '.lock'), 'w') as lk:
         fcntl.flock(lk, fcntl.LOCK_EX)
@@ -216,7 +218,12 @@ def ensure_built():
             rc, out = _run(['coq_makefile', '-f', '_CoqProject', '-o', 'Makefile'], cwd=COQ)
             if rc != 0:
                 raise Broken('coq_makefile failed:\n' + out)
-        rc, out = _run(['make', '-j16'], cwd=COQ, timeout=3000)
+        if pid is None:
+            targets = []
+        else:
+            targets = ['theories/Props/%s.vo' % pid] + sorted(
+                'theories/Model/' + f + 'o' for f in os.listdir(os.path.join(THEORIES, 'Model')) if f.endswith('.v'))
+        rc, out = _run(['make', '-j16'] + targets, cwd=COQ, timeout=3000)
         fcntl.flock(lk, fcntl.LOCK_UN)
     return rc, out
 
@@ -307,7 +314,7 @@ class Ctx:
         hits = forbidden_scan()
         if hits:
             self.obligation('no-admits-or-axioms-in-development', False, '; '.join(hits[:5]))
-        rc, out = ensure_built()
+        rc, out = ensure_built(self.pid)
         if rc != 0:
             m = _ERR_RE.search(out)
             where = ('%s line %s: %s' % (m.group(1), m.group(2), ' '.join(m.group(3).split())[:300])) if m else out[-600:]
